@@ -30,7 +30,7 @@ def build(asm, tier):
     asm.raw('} // mod lib\npub mod units {\n' + common.UNITS_USES + 'broadcast use super::lib::ax_zero_f64, super::lib::ax_variable_id_key_model;\nuse super::lib::v1::decision_variable::Kind;\n')
     asm.raw(io.SLACK_STUBS + io.defined_ids_stub(), 'assumed callee contracts')
     for n, where in (('Instance::get_kinds', 'assumed (iterator collect into a HashMap)'),
-                     ('Function::used_decision_variable_ids', 'C08 for Constant/Linear and the dispatch; the Quadratic/Polynomial collects are assumed there'),
+                     ('Function::used_decision_variable_ids', 'C08 (all four kinds and the dispatch)'),
                      ('Function::content_factor', 'assumed (gcd/lcm over f64 mantissas: not within reach); exercised by the bounded stand-in'),
                      ('Function::evaluate_bound', 'C16 (same preconditions: bounds_wf, small_degree, fn_coo_ok)'),
                      ('f64 * Function', 'C02 (value and ids); the clause small_degree(rhs) ==> small_degree(r) is assumed'),
